@@ -4,6 +4,8 @@ CONSTANTS
   MaxFR = 1
   MaxCalls = 3
   Algo = "refresh"
+  Queued = FALSE
+  Reload = TRUE
 INVARIANT C02_TrueIffDone
 INVARIANT C02_FalseIffExhausted
 INVARIANT C02_OnlyOwnPayload
